@@ -35,6 +35,10 @@ def run(prop, tier, seed, replay=None):
         for k in range(0, 4):
             for j in range(0, 6):
                 scen.append({"kind": "udpcut", "k": k, "j": j})
+        # the two address families of a UDP tracker answer, fail or are absent independently
+        for mode in ("ok:1800", "ok:7200", "ok:600", "ok:30", "error"):
+            scen.append({"kind": "udpfam", "v4": mode, "v6": "absent"})
+            scen.append({"kind": "udpfam", "v4": "absent", "v6": mode})
         nloop = len(scen)
         if nloop < 150:
             raise Internal("UdpExchange: only %d reply sequences" % nloop)
